@@ -348,3 +348,63 @@ Section Model.
                       | None => None end;
        b_aux_shipped := aux |}.
 End Model.
+
+(* ------------------------------------------------------------------------------------------ *)
+(* Part 3: byte-level walker (used by the oracle to cut items out of the library's bytes)     *)
+(* ------------------------------------------------------------------------------------------ *)
+(* k consecutive data items starting at r, each with the exact bytes it occupies *)
+Fixpoint items (fuel k : nat) (r : bytes) : option (list (cbor * bytes) * bytes) :=
+  match k with
+  | O => Some ([], r)
+  | S k' =>
+      match dec fuel r with
+      | Some (x, rest) =>
+          match items fuel k' rest with
+          | Some (l, rr) => Some ((x, firstn (length r - length rest) r) :: l, rr)
+          | None => None
+          end
+      | None => None
+      end
+  end.
+
+Definition walk_fuel (bs : bytes) : nat := (3 * length bs + 3)%nat.
+
+(* a definite-length array: its items and their byte slices; nothing may follow the array *)
+Definition array_items (bs : bytes) : option (list (cbor * bytes)) :=
+  match bs with
+  | [] => None
+  | h :: r =>
+      if (b2n h / 32 =? 4) && negb (b2n h mod 32 =? 31) then
+        match dec_arg (b2n h mod 32) r with
+        | Some (n, r1) =>
+            match items (walk_fuel bs) (N.to_nat n) r1 with
+            | Some (l, []) => Some l
+            | _ => None
+            end
+        | None => None
+        end
+      else None
+  end.
+
+Fixpoint pair_up {A} (l : list A) : list (A * A) :=
+  match l with
+  | a :: b :: r => (a, b) :: pair_up r
+  | _ => []
+  end.
+
+(* a definite-length map: (key, key bytes), (value, value bytes) *)
+Definition map_items (bs : bytes) : option (list ((cbor * bytes) * (cbor * bytes))) :=
+  match bs with
+  | [] => None
+  | h :: r =>
+      if (b2n h / 32 =? 5) && negb (b2n h mod 32 =? 31) then
+        match dec_arg (b2n h mod 32) r with
+        | Some (n, r1) =>
+            match items (walk_fuel bs) (2 * N.to_nat n) r1 with
+            | Some (l, []) => Some (pair_up l)
+            | _ => None
+            end
+        | None => None
+        end
+      else None
+  end.
